@@ -5,7 +5,7 @@ import itertools
 
 from ..core import Prop, Violation
 from .. import cffl
-from ..cffl import GATES, VERDICTS, ODD_VERDICTS, Ob, cfg_line
+from ..cffl import GATES, VERDICTS, ODD_VERDICTS, Ob, cfg_line, BUDGETS, BIG_ADVANCES, real_prompt
 from ..extract import e2
 
 PERMIT_EXEC = ("EXECUTE", "PERMIT")      # "executor permits"
@@ -13,8 +13,9 @@ TTL = 300_000_000
 
 
 def criterion(gate: str, z: str, y: str) -> bool:
-    """The property text: when may a request come back not-blocked.  z / y are verdict strings, 'exc' = raised."""
-    if z == "exc" or y == "exc":
+    """The property text: when may a request come back not-blocked.  z / y are the verdicts the agents actually
+    returned on this request: a string, 'exc' = raised, None = that agent was not consulted at all."""
+    if z is None or y is None or z == "exc" or y == "exc":
         return False
     zp = z in PERMIT_EXEC
     yp = y == "PERMIT"                   # an approval is the assessor's PERMIT, nothing else
@@ -36,7 +37,7 @@ class C07(Prop):
     quick_budget = 1500
     thorough_budget = 40000
     extractors = ["E2"]
-    all_branches = (["k:circuit_open", "k:cache_hit", "k:agent_exc", "k:gated_success", "k:gated_neither",
+    all_branches = (["energy:refused", "k:circuit_open", "k:cache_hit", "k:agent_exc", "k:gated_success", "k:gated_neither",
                      "k:raised", "token", "cache:shrunk", "cache:replace-or-evict"]
                     + [f"act:{a}" for a in ("SUCCESS", "BLOCKED", "FAILURE", "SKIPPED", "ERROR")])
     assumptions = [
@@ -64,7 +65,12 @@ class C07(Prop):
             breaker = rng.random() < 0.3
             cache = rng.random() < 0.85
             ttl = rng.choice([TTL, TTL, 1_000_000, 1, 0, -5])
-            lines = [cfg_line(gate, breaker, rng.choice([1, 2, 3, 5]), rng.choice([0, 1_000_000, 60_000_000]), cache, ttl)]
+            if i % 7 == 3:
+                yield self._real_case(rng)
+                continue
+            budget = rng.choice(BUDGETS) if rng.random() < 0.45 else None
+            lines = [cfg_line(gate, breaker, rng.choice([1, 2, 3, 5]), rng.choice([0, 1_000_000, 60_000_000]), cache, ttl,
+                              budget)]
             npr = rng.choice([1, 2, 3, 5])
             for _ in range(rng.choice([2, 3, 4, 6, 8, 12])):
                 u = rng.random()
@@ -79,8 +85,11 @@ class C07(Prop):
                         p = str(rng.randrange(16))     # the special prompt strings
                     lines.append(f"run {p} {z} {y}")
                 elif u < 0.9:
-                    lines.append("adv " + str(rng.choice([1, ttl - 1, ttl, ttl + 1, 1_000_000, 999_999, 60_000_000])
-                                              if ttl > 1 else rng.choice([0, 1, 2])))
+                    if rng.random() < 0.25:
+                        lines.append("adv " + str(rng.choice(BIG_ADVANCES)))
+                    else:
+                        lines.append("adv " + str(rng.choice([1, ttl - 1, ttl, ttl + 1, 1_000_000, 999_999, 60_000_000])
+                                                  if ttl > 1 else rng.choice([0, 1, 2])))
                 elif u < 0.96:
                     lines.append("clearcache")
                 else:
@@ -88,6 +97,24 @@ class C07(Prop):
             if rng.random() < 0.02:     # malformed stream: both sides must answer bad-op and carry on
                 lines.insert(rng.randrange(1, len(lines) + 1), rng.choice(["run 1 EXECUTE", "bogus", "cfg and 1", "adv", "run"]))
             yield {"lines": lines, "note": "random"}
+
+    def _real_case(self, rng):
+        """the built-in BioAgent executor / assessor (core/agent.py) on prompts whose verdicts are known, on every
+        gate logic and on budgets that run dry in the middle of the history"""
+        gate = rng.choice(GATES)
+        budget = rng.choice([0, 10, 20, 30, 50, 50, 70, 100, 200, None])
+        lines = [cfg_line(gate, rng.random() < 0.3, rng.choice([2, 3, 5]), 60_000_000, rng.random() < 0.8, TTL, budget, True)]
+        seen = []
+        for _ in range(rng.choice([2, 3, 4, 5, 6, 8])):
+            if seen and rng.random() < 0.25:
+                p = rng.choice(seen)
+            else:
+                p = real_prompt(rng, rng.random() < 0.35)
+                seen.append(p)
+            lines.append(f"run {p} EXECUTE {'BLOCK' if int(p) < 2100 else 'PERMIT'}")
+            if rng.random() < 0.15:
+                lines.append("adv " + str(rng.choice([TTL, TTL - 1] + BIG_ADVANCES[:3])))
+        return {"lines": lines, "note": "built-in agents"}
 
     def _cap_case(self, k):
         """more than 1000 distinct prompts: the size cap of the cache evicts the oldest entry"""
@@ -110,6 +137,15 @@ class C07(Prop):
                               "note": "exhaustive gate x verdict x verdict, repeated prompt"})
         spaces = [{"name": "all 6 gate logics x 8 x 8 verdict types (6 known + exception + out-of-vocabulary), each "
                            "request repeated (cache hit) and followed by a different prompt", "cases": cases}]
+        drained = []
+        for g in GATES:
+            for budget in BUDGETS:
+                for z, y in (("EXECUTE", "PERMIT"), ("PERMIT", "PERMIT"), ("EXECUTE", "BLOCK"), ("exc", "PERMIT"), ("EXECUTE", "exc")):
+                    drained.append({"lines": [cfg_line(g, True, 5, 60_000_000, True, TTL, budget), f"run 21 {z} {y}",
+                                              f"run 22 {z} {y}", f"run 23 {z} {y}", f"run 21 {z} {y}"],
+                                    "note": "exhaustive gate x budget: the shared store runs dry"})
+        spaces.append({"name": "all 6 gate logics x 9 small budgets (0..200 ATP) x 5 scripted behaviours, three "
+                               "distinct prompts and a repeat", "cases": drained})
         if tier == "thorough":
             more = []
             for g in GATES:
@@ -128,18 +164,18 @@ class C07(Prop):
         out = []
         gate, cache_on = "and", True
         orig = {}            # prompt token -> verdict of the latest non-cached reply
+        actual = extra if extra else [(None, None)] * len(obs)
         for idx, (line, raw) in enumerate(zip(case["lines"], obs)):
             t = line.split()
-            if t[0] == "cfg" and len(t) == 7:
+            if t[0] == "cfg" and len(t) in (7, 8, 9):
                 gate, cache_on = (t[1] if t[1] in GATES else "and"), t[5] == "1"
                 orig = {}
                 continue
             if t[0] != "run" or len(t) != 4 or raw == "bad-op":
                 continue
             o = Ob(raw)
-            p, z, y = t[1], t[2], t[3]
-            z = "exc" if z == "exc" else cffl.verdict_text(z)
-            y = "exc" if y == "exc" else cffl.verdict_text(y)
+            p = t[1]
+            z, y = actual[idx]       # what the agents really answered on this request (None = not consulted)
             if o.raised is not None:
                 # nothing came back, so nothing passed; only an *encodable* prompt must always get a reply
                 if not p.startswith("u"):
@@ -161,7 +197,7 @@ class C07(Prop):
                     out.append(Violation("cached_verdict_identical", str(orig[p]), str(verdict), idx))
             else:
                 orig[p] = verdict
-                # the agents consulted for this reply are the ones on this line
+                # judged by the verdicts actually obtained on this request, whatever the budget
                 if not o.blocked and not criterion(gate, z, y):
                     out.append(Violation("unblocked_only_if_gate_satisfied",
                                          f"blocked (gate={gate} executor={z} assessor={y})", raw, idx))
